@@ -85,26 +85,31 @@ Definition isdig (c : N) : bool := (48 <=? c)%N && (c <=? 57)%N.
 (* the exponent part: Some (Some dp') / Some None = hardexp / None = bad *)
 Inductive eres := EBad | EHard | EDp (dp : Z).
 
+(* the digits of the exponent (one or two; more = hardexp) *)
+Definition rf_exp_digits (eneg : bool) (r1 : list N) (dp0 : Z) : eres :=
+  match r1 with
+  | [] => EDp dp0
+  | d1 :: r2 =>
+    if (2 <? Z.of_nat (length r1)) then EHard
+    else if negb (isdig d1) then EBad
+    else
+      let e1 := c2z d1 - 48 in
+      match r2 with
+      | [] => EDp (wi (if eneg then dp0 - e1 else dp0 + e1))
+      | d2 :: _ =>
+        if negb (isdig d2) then EBad
+        else let e2 := wi (e1 * fBase + (c2z d2 - 48)) in
+             EDp (wi (if eneg then dp0 - e2 else dp0 + e2))
+      end
+  end.
+
 Definition rf_exp (rest : list N) (dp0 : Z) : eres :=
   match rest with
   | [] => EDp dp0
   | c :: r =>
-    let '(eneg, r1) := if (c =? 43)%N then (false, r) else if (c =? 45)%N then (true, r) else (false, rest) in
-    match r1 with
-    | [] => EDp dp0
-    | d1 :: r2 =>
-      if (2 <? Z.of_nat (length r1)) then EHard
-      else if negb (isdig d1) then EBad
-      else
-        let e1 := c2z d1 - 48 in
-        match r2 with
-        | [] => EDp (wi (if eneg then dp0 - e1 else dp0 + e1))
-        | d2 :: _ =>
-          if negb (isdig d2) then EBad
-          else let e2 := wi (e1 * fBase + (c2z d2 - 48)) in
-               EDp (wi (if eneg then dp0 - e2 else dp0 + e2))
-        end
-    end
+    if (c =? 43)%N then rf_exp_digits false r dp0
+    else if (c =? 45)%N then rf_exp_digits true r dp0
+    else rf_exp_digits false rest dp0
   end.
 
 Definition rf_finish (y : floatinfo) (neg : bool) (st : lst) (dpf : Z) : rfr :=
@@ -116,30 +121,33 @@ Definition rf_finish (y : floatinfo) (neg : bool) (st : lst) (dpf : Z) : rfr :=
     then mkrfr (lm st) 0 neg false false true false
     else mkrfr (lm st) (wi8 e) neg false false false true.
 
+(* everything after the optional sign *)
+Definition rf_main (y : floatinfo) (neg : bool) (s1 : list N) : rfr :=
+  let badzero :=
+    match s1 with
+    | z :: n :: _ => (z =? 48)%N && negb ((n =? 46)%N || (n =? 101)%N || (n =? 69)%N)
+    | _ => false
+    end in
+  if badzero then mkrfr 0 0 neg false true false false
+  else
+    match rf_loop y s1 (mklst 0 0 0 false 0) with
+    | LBad => mkrfr 0 0 neg false true false false     (* mantissa is not observed when bad *)
+    | LTrunc => mkrfr 0 0 neg true false false false
+    | LEnd st => rf_finish y neg st (if sawdot st then dp st else nd st)
+    | LExp st rest =>
+      match rf_exp rest (if sawdot st then dp st else nd st) with
+      | EBad => mkrfr 0 0 neg false true false false
+      | EHard => mkrfr 0 0 neg false false true false
+      | EDp d => rf_finish y neg st d
+      end
+    end.
+
 Definition readFloat (s : list N) (y : floatinfo) : rfr :=
   match s with
   | [] => mkrfr 0 0 false false false false true
   | c0 :: t0 =>
     let neg := (c0 =? 45)%N in
-    let s1 := if neg then t0 else s in
-    let badzero :=
-      match s1 with
-      | z :: n :: _ => (z =? 48)%N && negb ((n =? 46)%N || (n =? 101)%N || (n =? 69)%N)
-      | _ => false
-      end in
-    if badzero then mkrfr 0 0 neg false true false false
-    else
-      match rf_loop y s1 (mklst 0 0 0 false 0) with
-      | LBad => mkrfr 0 0 neg false true false false     (* mantissa is not observed when bad *)
-      | LTrunc => mkrfr 0 0 neg true false false false
-      | LEnd st => rf_finish y neg st (if sawdot st then dp st else nd st)
-      | LExp st rest =>
-        match rf_exp rest (if sawdot st then dp st else nd st) with
-        | EBad => mkrfr 0 0 neg false true false false
-        | EHard => mkrfr 0 0 neg false false true false
-        | EDp d => rf_finish y neg st d
-        end
-      end
+    rf_main y neg (if neg then t0 else s)
   end.
 
 (* parseUint64_simple: (n, ok) *)
